@@ -363,7 +363,8 @@ def gen_and_random(rng, count):
             variant.append(rng.choice(["prebuilt", "intersection-two-finger"]))
         if kind == "and" and rng.random() < 0.08:
             variant.append("rank-ids-differ")
-        if rng.random() < 0.08 and vals == "int" and m is None and "format-U" not in variant:
+        if rng.random() < 0.08 and vals == "int" and m is None and "format-U" not in variant \
+                and "rank-ids-differ" not in variant:
             # operand identity in the random stream: the second operand IS the first one
             pairs = [(pa, pa) if rng.random() < 0.5 and isinstance(pa, list) else (pa, pb) for pa, pb in pairs]
             variant.append("shared-objects")
@@ -689,7 +690,9 @@ def run_and(case):
             else:
                 a = build_operand(pairs[idx][0], dflt, vals, ow, sh)
             b = build_operand(pairs[idx][1], dflt, vals, ow, sh)
-            if "rank-ids-differ" in variant and b is not a and not ow:
+            # (not together with shared objects: the second operand may then BE a component of a
+            #  lazy first operand, whose inner intersection would run under a rank no loop registers)
+            if "rank-ids-differ" in variant and "shared-objects" not in variant and b is not a and not ow:
                 b.getRankAttrs().setId("KB")
             built[key] = (a, b)
         return built[key]
